@@ -104,3 +104,17 @@ Section Check.
                         | None => true end
                       else true) (w_binds w).
 End Check.
+
+(* C19 on the property layer: what the library holds on behalf of a world - occupied connection slots, live connection tables, live
+   bindings, properties, registry entries, user-held bindings, evaluator handles.  Two worlds with the same footprint hold the same
+   number of library objects of every kind; the correspondence check compares "footprint unchanged over a repeated cycle" with
+   "bytes held by the real library unchanged over the same repetitions" (harness/prop_harness.cpp, -DHEAP_ACCOUNTING). *)
+Definition footprint (w : world) : list nat :=
+  [ fold_right (fun tb n => n + length (filter (fun s => match s with Some _ => true | None => false end) (t_slots tb))) 0 (w_tables w);
+    length (filter (fun tb => t_alive tb) (w_tables w));
+    length (filter (fun x => b_alive x) (w_binds w));
+    length (w_props w);
+    fold_right (fun st n => n + length (ep_registry st)) 0 (w_evps w);
+    length (w_held w);
+    length (w_bevs w) ].
+
